@@ -11,7 +11,8 @@ Inductive exn :=
 | TypeErr            (* ClaripyTypeError (size mismatch, zero-length operands) *)
 | ValueErr           (* ClaripyValueError *)
 | BackendErr         (* BackendError and subclasses not listed above *)
-| VSAErr.            (* ClaripyVSAError / ClaripyVSAOperationError *)
+| VSAErr             (* ClaripyVSAError / ClaripyVSAOperationError *)
+| Unmodelled.        (* not a Python outcome: the model does not cover this code path *)
 
 (* Python-level failures that are none of the above *)
 Inductive crash :=
@@ -52,8 +53,13 @@ Definition py_shl (a b : Z) : res Z :=
   else if SHIFT_LIMIT <? b then Crash PyMemory
   else Ok (Z.shiftl a b).
 
+(* Z.shiftr iterates over the shift amount; shifting past every significant bit is answered at once
+   (Proofs/BVLemmas.v: fast_shiftr_eq shows this is Z.shiftr) *)
+Definition fast_shiftr (a b : Z) : Z :=
+  if Z.log2 (Z.abs a) + 1 <? b then (if a <? 0 then -1 else 0) else Z.shiftr a b.
+
 Definition py_shr (a b : Z) : res Z :=
-  if b <? 0 then Crash PyNegShift else Ok (Z.shiftr a b).
+  if b <? 0 then Crash PyNegShift else Ok (fast_shiftr a b).
 
 Definition py_floordiv (a b : Z) : res Z :=
   if b =? 0 then Crash PyZeroDivision else Ok (a / b).
